@@ -109,6 +109,9 @@ class FakeSock:
     def close(self):
         pass
 
+    def settimeout(self, t):      # the handler sets a receive timeout on the accepted socket (fix F8)
+        pass
+
 
 class Rig:
     """one real BoboDistributedTCP instance under scripted clock / wire."""
